@@ -489,6 +489,9 @@ func (s *FakeStream) Write(p []byte) (int, error) {
 }
 
 func (s *FakeStream) Close() error {
+	if s.Hook != nil {
+		s.Hook(s, "close")
+	}
 	s.mu.Lock()
 	s.Calls = append(s.Calls, "close")
 	s.localClosed = true
